@@ -4189,7 +4189,14 @@ class FuncSum(ValueFunc):
             if value.isInt():
                 result += value.value
             elif value.isDecimal():
-                result += value.value
+                try:
+                    result += value.value
+                except OverflowError:
+                    raise CklRuntimeError(
+                        ValueString("ERROR"),
+                        "Int is too large for a decimal",
+                        pos,
+                    )
                 decimalrequired = True
             else:
                 raise CklRuntimeError(
